@@ -25,7 +25,8 @@ CLS_YAML = [
         # a const method whose arguments are not const (built, not driven)
         {"decl": "int blend(Cls * other, std::string & tag) const"},
         # member variables (docs/classes.rst "Member Variables"): getter and setter, read-only, renamed
-        {"decl": "int value"}, {"decl": "int ro +readonly"}, {"decl": "double other +name(alt)"}]},
+        {"decl": "int value"}, {"decl": "int ro +readonly"}, {"decl": "double other +name(alt)"},
+        {"decl": "Color tint"}]},
     {"decl": "Cls * make(int v) +owner(caller)"},
     {"decl": "const Cls fresh(int v)"},
 ]
@@ -36,6 +37,7 @@ public:
     int value;
     int ro;
     double other;
+    Color tint;
     explicit Cls(int v);
     ~Cls();
     int get() const;
@@ -57,8 +59,8 @@ const Cls fresh(int v);
 
 CLS_CPP = """
 static int ncls_ = 0;
-Cls::Cls(int v, bool quiet) : value(v), ro(2 * v), other(v + 0.5), quiet_(quiet) { ncls_++; vt_live(1); }
-Cls::Cls(int v) : value(v), ro(2 * v), other(v + 0.5), quiet_(false) { ncls_++; vt_live(1);
+Cls::Cls(int v, bool quiet) : value(v), ro(2 * v), other(v + 0.5), tint(RED), quiet_(quiet) { ncls_++; vt_live(1); }
+Cls::Cls(int v) : value(v), ro(2 * v), other(v + 0.5), tint(RED), quiet_(false) { ncls_++; vt_live(1);
     vt_begin("LibEnter", "Cls::Cls"); vt_target("ns1::Cls::Cls(int)"); vt_int(v); vt_end();
     vt_begin("LibExit", "Cls::Cls"); vt_target("ns1::Cls::Cls(int)"); vt_obj(this); vt_end(); }
 Cls::~Cls() { ncls_--; vt_live(-1); if (quiet_) return;
@@ -88,7 +90,7 @@ int Cls::add(const Cls &other, Cls *third) {
     vt_begin("LibEnter", "Cls::add"); vt_target("ns1::Cls::add(const Cls&,Cls*)"); vt_obj(this); vt_obj(&other); vt_obj(third); vt_end();
     int rv = value + 10 * other.value + 100 * third->value;
     vt_begin("LibExit", "Cls::add"); vt_target("ns1::Cls::add(const Cls&,Cls*)"); vt_int(rv); vt_end(); return rv; }
-Cls::Cls() : value(0), ro(0), other(0.0), quiet_(true) { ncls_++; vt_live(1); }
+Cls::Cls() : value(0), ro(0), other(0.0), tint(RED), quiet_(true) { ncls_++; vt_live(1); }
 Cls Cls::dup() const { Cls rv; rv.value = value + 2000; return rv; }
 const Cls Cls::cdup() const { Cls rv; rv.value = value + 3000; return rv; }
 int Cls::blend(Cls *other, std::string &tag) const { other->value += 1; tag += "!"; return value + other->value; }
@@ -452,6 +454,10 @@ CLS_DRIVER = r"""
       x = SUB_ns1_Cls_get_alt(&d); MGET_D("alt", d, x);
       g = SUB_ns1_Cls_get_value(&d); MGET_I("value", d, g);
       g = SUB_ns1_Cls_get_ro(&d); MGET_I("ro", d, g);
+      g = (int)SUB_ns1_Cls_get_tint(&c); MGET_I("tint", c, g);
+      MSET_I("tint", c, 5); SUB_ns1_Cls_set_tint(&c, 5);
+      g = (int)SUB_ns1_Cls_get_tint(&c); MGET_I("tint", c, g);
+      g = (int)SUB_ns1_Cls_get_tint(&d); MGET_I("tint", d, g);
     }
     (void)e;
   }
@@ -459,7 +465,7 @@ CLS_DRIVER = r"""
 
 
 # members of further types that only the Python class declares (constructor values; reals in quarters)
-EXTRA_INIT = {"us": 7, "u8": 3, "ll": 100, "fl": 6, "flag": 1}
+EXTRA_INIT = {"us": 7, "u8": 3, "ll": 100, "fl": 6, "flag": 1, "tint": 1}
 
 
 def member_trace(events, cls="Cls", out=None):
